@@ -55,7 +55,7 @@ theorem Inv.absCur_eq {s : LSet} {bs : List Nat} (h : Inv s bs) (d : Dir) (c : C
           · rfl
           · exact absurd ((h.isSome_iff b).1 hv) hb
         cases d
-        · simp [Cursor.pos, posR, posF, hb0, hb, this, tg]
+        · simp [Cursor.pos, posF, hb0, hb, this, tg]
         · simp only [Cursor.pos, posR, posF, hb0, hb, this, tg, false_or, if_false]
           simp only [Bool.false_eq_true, if_false]
           congr 1
@@ -179,7 +179,7 @@ theorem getElem?_idxOf_map (f : Nat → Nat) : ∀ (bs : List Nat) (t : Nat), t 
   | [], _, h => by simp at h
   | x :: bs, t, h => by
       by_cases hx : x = t
-      · subst hx; simp [List.idxOf_cons]
+      · subst hx; simp
       · have hb : (x == t) = false := by simp [hx]
         have ht : t ∈ bs := by
           simp only [List.mem_cons] at h
